@@ -1510,3 +1510,24 @@ Proof. vm_compute. repeat split; reflexivity. Qed.
 Example ex_changed_args :
   relevant (cm_def ex_cb) <> relevant (ex_def [67;46;98] [ex_mid; ex_src2] [ex_out; ex_out2] [[66;50]]).
 Proof. vm_compute. discriminate. Qed.
+
+(* ---------- virtual nodes gaining or losing a producer ---------- *)
+
+(* the rule a virtual node's key resolves to changes kind exactly like a file node's
+   (the signature statement input_becomes_produced holds for every node name, virtual ones included) *)
+Theorem virtual_becomes_produced_rule d1 d2 n : node_type n = 3 ->
+  producers d1 n = [] -> producers d2 n <> [] ->
+  lookup_rule d1 (KN n) = RVirtualInput /\ lookup_rule d2 (KN n) = RProduced n (producers d2 n).
+Proof.
+  intros T P1 P2. unfold lookup_rule, node_virtual. rewrite P1, T. cbn [N.eqb Pos.eqb].
+  split; [reflexivity|]. destruct (producers d2 n); [congruence | reflexivity].
+Qed.
+
+(* "<all>" without and with its producer: the rule, and the tokens fed to the node's signature, differ *)
+Definition ex_d2 : desc := mkDesc [ex_ca; ex_cb] [] [([], [ex_all])].
+Example ex_virtual_gains_producer :
+  node_type ex_all = 3 /\ producers ex_d2 ex_all = [] /\ producers ex_d3 ex_all = [ex_call] /\
+  lookup_rule ex_d2 (KN ex_all) = RVirtualInput /\ lookup_rule ex_d3 (KN ex_all) = RProduced ex_all [ex_call] /\
+  node_sig_tokens (node_def ex_d2 ex_all) = [TU64 3] /\
+  node_sig_tokens (node_def ex_d3 ex_all) = [TU64 3; TStr [67;46;97;108;108]].
+Proof. vm_compute. repeat split; reflexivity. Qed.
